@@ -1,0 +1,18 @@
+package util
+
+import (
+	"encoding/binary"
+)
+
+// AppendMergedKey appends an injective encoding of the given list of keys to buf and returns the extended buffer
+//
+// Every key is preceded by its length (uvarint), so two different lists can never produce the same merged key, as plain
+// concatenation does for e.g. ("ab","c") and ("a","bc"), or ("","x") and ("x",""). The result is meant to be used as a
+// map key only; it is not human-readable.
+func AppendMergedKey(buf []byte, keys []string) []byte {
+	for _, key := range keys {
+		buf = binary.AppendUvarint(buf, uint64(len(key)))
+		buf = append(buf, key...)
+	}
+	return buf
+}
